@@ -26,6 +26,9 @@ def make(p):
     n, d, nv = p['n'], p['d'], p['nval']
     X = torch.randn(n, d, generator=g)
     Xv = torch.randn(nv, d, generator=g) * p.get('val_spread', 1.0)
+    if p.get('xscale', 1.0) != 1.0:
+        # features in other units (1e-4 .. 1e3): routing compares projections with thresholds, not with an absolute resolution
+        X, Xv = X * p['xscale'], Xv * p['xscale']
     if p.get('grid'):
         # integer-valued features (counts, categories coded as numbers): projections on a coordinate axis are exact and tie
         # with the split point; an extra column that the split direction ignores keeps the training rows pairwise distinct
@@ -254,7 +257,7 @@ def gen_cases(run):
             refill=r.choice([1, 2, 5, 10, 20, L, 3 * L]), nval=r.choice([0, 1, 3, n // 10, n // 3, n, 3 * n]),
             val_spread=r.choice([1.0, 1.0, 0.05, 3.0]), method=method, task=task, outputs=r.randint(1, 2),
             classes=r.randint(2, 4), mode=r.choice(['zero_one', 'prevalence']), stub=not (real or method in REAL_METHODS),
-            iters=r.choice([0, 0, 1]), dseed=r.randint(0, 10 ** 6)))
+            iters=r.choice([0, 0, 1]), dseed=r.randint(0, 10 ** 6), xscale=r.choice([1.0, 1.0, 1.0, 1e-4, 1e3])))
     # integer-grid data with a coordinate-axis direction: validation projections tie with the split point exactly
     for k in range(8 if run.tier == 'quick' else 60):
         L = r.choice([8, 12, 16])
